@@ -478,9 +478,9 @@ def worker():
 
 def generate(ctx):
     rng = ctx.rng('gen')
-    per_env = ctx.scale(4, 16)
+    per_env = ctx.scale(4, 8)
     nseeds = ctx.scale(80, 300)
-    nproc = ctx.scale(3, 6)
+    nproc = ctx.scale(3, 12)
     cases = []
     for k in range(per_env):
         for env in ENVS:
